@@ -24,11 +24,18 @@ var c17States = []string{"zero-stack", "freed-stack", "zero-cond", "freed-cond",
 func c17Pools(log *CallLog) *Pools {
 	return &Pools{
 		Any: []any{"x", nil, 7, stackage.Stack{}, stackage.Condition{}, stackage.And().Push("e"), []any{"AND", "a", "b"},
-			(*stackage.Stack)(nil), stackage.Cond("k", stackage.Eq, "v")},
+			(*stackage.Stack)(nil), stackage.Cond("k", stackage.Eq, "v"), stackage.List(4).Push("capped"), c17OpOnlyCond(), stackage.Cond("", stackage.Ge, "x")},
 		Ints: []int{0, -1, 1, 3},
 		Strs: []string{"x", "", "_random", "_addr"},
 		Log:  log,
 	}
+}
+
+// c17OpOnlyCond: an initialised Condition that has an operator but neither keyword nor expression.
+func c17OpOnlyCond() stackage.Condition {
+	var c stackage.Condition
+	c.Init()
+	return c.SetOperator(stackage.Eq)
 }
 
 // c17Receiver builds a fresh receiver in the named state; returns a pointer value so that pointer methods are reachable.
